@@ -88,3 +88,49 @@ Definition own_elements (g : gen_in) : list pkg :=
 Definition SingleTarget (g : gen_in) : Prop :=
   forall a, In a (g_apks g) -> forall e, locate (g_fs g) (candidates (a_name a) (a_version a)) = Some (FDoc e) ->
     (List.length (targets (a_name a) e) <= 1)%nat.
+
+(* ---- several described elements carrying the apk's name ------------------------- *)
+(* the embedded document ProcessInternalApkSBOM uses for this apk, if any *)
+Definition located_in (fs : list (string * fsent)) (a : apk) : option doc :=
+  match locate fs (candidates (a_name a) (a_version a)) with Some (FDoc e) => Some e | _ => None end.
+Definition located (g : gen_in) (a : apk) : option doc := located_in (g_fs g) a.
+Definition pkgs_located_in (fs : list (string * fsent)) (a : apk) : list pkg :=
+  match located_in fs a with Some e => d_pkgs e | None => [] end.
+Definition doc_pkgs_of (g : gen_in) (a : apk) : list pkg := pkgs_located_in (g_fs g) a.
+(* every package record the document can hold when the apk after [l1] has just got
+   its own element: what Generate mints itself up to there, and the packages of the
+   embedded documents of the apks before it (replacePackage removes packages and
+   renames references, it never changes a package's own id) *)
+Definition earlier_pkgs (g : gen_in) (l1 : list apk) (a : apk) : list pkg :=
+  d_pkgs (base_doc g) ++ List.map (apk_package (nonce_of g)) (l1 ++ [a]) ++
+  List.concat (List.map (doc_pkgs_of g) l1).
+(* no package carrying the apk's name that can be in the document before the copy
+   has one of the target ids *)
+Definition fresh_for (g : gen_in) (l1 : list apk) (a : apk) (tg : list string) : Prop :=
+  forall q, In q (earlier_pkgs g l1 a) -> p_name q = a_name a -> ~ In (p_id q) tg.
+Definition fresh_for_b (g : gen_in) (l1 : list apk) (a : apk) (tg : list string) : bool :=
+  forallb (fun q => negb (String.eqb (p_name q) (a_name a) && mem (p_id q) tg)) (earlier_pkgs g l1 a).
+
+Definition AtMostTwoTargets (g : gen_in) : Prop :=
+  forall a, In a (g_apks g) -> forall e, locate (g_fs g) (candidates (a_name a) (a_version a)) = Some (FDoc e) ->
+    (List.length (targets (a_name a) e) <= 2)%nat.
+(* the target ids of an embedded document with SEVERAL targets are new to the
+   document among the packages carrying the apk's name *)
+Definition TargetsFresh (g : gen_in) : Prop :=
+  forall l1 a l2 e, g_apks g = l1 ++ a :: l2 ->
+    locate (g_fs g) (candidates (a_name a) (a_version a)) = Some (FDoc e) ->
+    (2 <= List.length (targets (a_name a) e))%nat -> fresh_for g l1 a (targets (a_name a) e).
+
+Fixpoint targets_fresh_from (g : gen_in) (l1 rest : list apk) : bool :=
+  match rest with
+  | [] => true
+  | a :: t =>
+      (match located g a with
+       | Some e => let tg := targets (a_name a) e in
+                   if Nat.leb 2 (List.length tg) then fresh_for_b g l1 a tg else true
+       | None => true
+       end) && targets_fresh_from g (l1 ++ [a]) t
+  end.
+Definition targets_fresh_b (g : gen_in) : bool := targets_fresh_from g [] (g_apks g).
+Definition at_most_two_targets_b (g : gen_in) : bool :=
+  forallb (fun a => match located g a with Some e => Nat.leb (List.length (targets (a_name a) e)) 2 | None => true end) (g_apks g).
